@@ -76,23 +76,85 @@ def optList : List (Option Rat) → Option (List Rat)
   | none :: _ => none
   | some x :: t => (optList t).map (x :: ·)
 
+abbrev SB := List Rat   -- one stored value: a scalar (`[v]`) or a block
+
+def sFill (w : Nat) : SB := List.replicate w (4711 : Rat)
+def sZero (w : Nat) : SB := List.replicate w (0 : Rat)
+def sSet (v : Rat) : SB → SB := fun b => b.map fun _ => v
+
+/-- dense read-out through `operator()(i)` for all `i`, then `used_elements()` -/
+def sReadout (w : Nat) (res : List Rat) (s : SVec SB) : String :=
+  let (vals, s) := runScript (sFill w) (sZero w) id ((List.range s.size).map SOp.read) s
+  s!"R {showRatsL res} 1 {showRatsL vals.flatten} U {s.usedElements.1}"
+
+/-- the member calls go through `runScript`, the function the theorem `C04.sparse_denotes` is about -/
+def sStep (w : Nat) (setv : SB → SB) (op : SOp SB) (s : SVec SB) : List Rat × SVec SB :=
+  let (vals, s') := runScript (sFill w) (sZero w) setv [op] s
+  (vals.flatten, s')
+
+def leafOf (kind : String) : Option (List Rat → Option Rat) :=
+  match kind with
+  | "maxabs" => some maxAbsElemK
+  | "minabs" => some minAbsElemK
+  | "max" => some maxElemK
+  | "min" => some minElemK
+  | _ => none
+
 def sparseP (b : Nat) : P String := do
+  let w := max b 1
   let sub ← tok
   let fv ← if sub == "format" then rat else pure 0
   let size ← nat
   let n ← nat
-  let writes ← many n (do let i ← nat; let v ← many (max b 1) rat; pure (i, v))
-  let entries := sortEntries writes
-  let zero := List.replicate (max b 1) (0 : Rat)
-  let entries := if sub == "format" then entries.map (fun p => (p.1, p.2.map fun _ => fv)) else entries
-  if ["get", "format"].contains sub then
-    let f := (sparseDense zero size entries).flatten
-    pure s!"R 0 1 {showRatsL f} U {entries.length}"
-  else if ["maxabs", "minabs", "max", "min"].contains sub then
-    -- the sparse min/max members are not modelled (they scan `size()` entries of the value array, which
-    -- holds `used_elements()` values followed by fill values; see FINDINGS_C04.md)
-    pure "UNMODELLED"
-  else throw s!"unknown sparse op {sub}"
+  let writes ← many n (do let i ← nat; let v ← many w rat; pure (i, v))
+  let s : SVec SB := (runScript (sFill w) (sZero w) id (writes.map fun p => SOp.write p.1 p.2) (SVec.empty size)).2
+  if sub == "get" then pure (sReadout w [] s)
+  else if sub == "format" then pure (sReadout w [] (sStep w (sSet fv) SOp.format s).2)
+  else match leafOf sub with
+    | some leaf =>
+      match s.extremeAsCoded leaf id w with
+      | (some v, s') => pure (sReadout w [v] s')
+      | (none, _) => pure "UNDEF"
+    | none => throw s!"unknown sparse op {sub}"
+
+/-- `svs`: a script of member calls -/
+def scriptP : P String := do
+  let b ← nat
+  if b > 3 then throw "unsupported block size"
+  let w := max b 1
+  let size ← nat
+  let n ← nat
+  let rec go (k : Nat) (res : List Rat) (s : SVec SB) : P (Option (List Rat × SVec SB)) :=
+    match k with
+    | 0 => pure (some (res, s))
+    | k + 1 => do
+      let what ← tok
+      match what with
+      | "w" => do
+        let i ← nat; let v ← many w rat
+        go k res (sStep w id (SOp.write i v) s).2
+      | "r" => do
+        let i ← nat
+        let (v, s') := sStep w id (SOp.read i) s
+        go k (res ++ v) s'
+      | "f" => do
+        let v ← rat
+        go k res (sStep w (sSet v) SOp.format s).2
+      | "u" =>
+        let (u, s') := s.usedElements
+        go k (res ++ [(u : Rat)]) s'
+      | "m" => do
+        let kind ← tok
+        match leafOf kind with
+        | some leaf =>
+          match s.extremeAsCoded leaf id w with
+          | (some v, s') => go k (res ++ [v]) s'
+          | (none, _) => pure none
+        | none => throw s!"unknown member {kind}"
+      | _ => throw s!"unknown script step {what}"
+  match (← go n [] (SVec.empty size)) with
+  | some (res, s) => pure (sReadout w res s)
+  | none => pure "UNDEF"
 
 def handle : P String := do
   let op ← tok
@@ -101,6 +163,7 @@ def handle : P String := do
     let b ← nat
     if b == 0 || b > 3 then throw "unsupported block size"
     return (← sparseP b)
+  if op == "svs" then return (← scriptP)
   let pat := (← tok).toList
   let _cl ← nat
   let scal ← ratList
